@@ -22,6 +22,27 @@ REPO = Path("/repo")
 
 # (property, name, relative file, old text, new text)
 MUTANTS = [
+    # ---- C16
+    ("C16", "revert_read_bytes_fix", "src/fcp/serde.py",
+     "        return [self.read_word(8) for _ in range(bytes)]\n",
+     "        byteaddr = self.bitaddr >> 3\n        self.bitaddr += 8 * bytes\n        return self.buffer[byteaddr : byteaddr + bytes]\n"),
+    ("C16", "bounds_check_but_floor", "src/fcp/serde.py",
+     "        return [self.read_word(8) for _ in range(bytes)]\n",
+     "        byteaddr = self.bitaddr >> 3\n        if byteaddr + bytes > len(self.buffer):\n            raise ValueError('buffer overrun')\n        self.bitaddr += 8 * bytes\n        return self.buffer[byteaddr : byteaddr + bytes]\n"),
+    ("C16", "get_bit_zero_past_end", "src/fcp/serde.py",
+     '            raise ValueError("buffer overrrun")', "            return 0"),
+    ("C16", "dyn_array_prealloc", "src/fcp/serde.py",
+     "    data = []\n    for i in range(len):\n        data.append(_decode(buffer, fcp, type.underlying_type))",
+     "    data = [None] * len\n    for i in range(len):\n        data[i] = _decode(buffer, fcp, type.underlying_type)"),
+    ("C16", "str_pad_short_payload", "src/fcp/serde.py",
+     '    return bytearray(buffer.read_bytes(len)).decode("ascii")',
+     '    avail = max(0, min(len, builtins_len(buffer.buffer) - ((buffer.bitaddr + 7) >> 3)))\n    return bytearray(buffer.read_bytes(avail)).decode("ascii").ljust(min(len, 64))'),
+    ("C16", "optional_swallow_overrun", "src/fcp/serde.py",
+     "    if is_some:\n        return _decode(buffer, fcp, type.underlying_type)\n    else:",
+     "    if is_some:\n        try:\n            return _decode(buffer, fcp, type.underlying_type)\n        except ValueError:\n            return None\n    else:"),
+    ("C16", "dyn_array_scan_all_before_fail", "src/fcp/serde.py",
+     "    data = []\n    for i in range(len):\n        data.append(_decode(buffer, fcp, type.underlying_type))",
+     "    data = []\n    err = None\n    for i in range(len):\n        try:\n            data.append(_decode(buffer, fcp, type.underlying_type))\n        except ValueError as e:\n            err = e\n    if err is not None:\n        raise err"),
     # ---- C19
     ("C19", "ge_to_gt", "plugins/fcp_can_c/templates/can_device_c.jinja",
      "] >= CAN_MSG_PERIOD_", "] > CAN_MSG_PERIOD_"),
@@ -79,6 +100,9 @@ def main() -> None:
         try:
             copy_repo(tmp)
             apply(tmp, rel, old, new)
+            if name == "str_pad_short_payload":
+                q = tmp / "src/fcp/serde.py"
+                q.write_text(q.read_text().replace("import struct\n", "import struct\nbuiltins_len = len\n", 1))
             if name == "shared_statics_across_devices":
                 # the shared variable needs one definition: put it in the static parser source
                 q = tmp / "plugins/fcp_can_c/templates/can_signal_parser.c"
@@ -93,7 +117,19 @@ def main() -> None:
             vio = [l for l in p.stdout.splitlines() if l.startswith("VIOLATION")]
             cls = [l.strip() for l in p.stdout.splitlines() if l.strip().startswith("violation class=")]
             ok = p.returncode == 1 and vio
-            rows.append((prop, name, "CAUGHT" if ok else f"MISSED(exit {p.returncode})", round(dt, 1),
+            rp = ""
+            if ok:
+                # the replay file must reproduce on the mutant (fresh process) and stay quiet on the pristine tree
+                path = vio[0].split("replay=", 1)[1].strip()
+                r1 = subprocess.run([str(VERIF / "bin/check"), prop, "--replay", path], env=env, capture_output=True, text=True)
+                env2 = dict(env)
+                env2.pop("VERIF_REPO")
+                r2 = subprocess.run([str(VERIF / "bin/check"), prop, "--replay", path], env=env2, capture_output=True, text=True)
+                rp = f"replay:mutant={r1.returncode},pristine={r2.returncode}"
+                if r1.returncode != 1 or r2.returncode != 0:
+                    ok = False
+                    rp += " REPLAY-MISMATCH " + r1.stdout[-200:] + r2.stdout[-200:]
+            rows.append((prop, name, "CAUGHT" if ok else f"MISSED(exit {p.returncode})", round(dt, 1), rp,
                          cls[0][:160] if cls else p.stdout[-300:].replace("\n", " | ")))
             print(rows[-1], flush=True)
         finally:
